@@ -278,7 +278,8 @@ def rule_wws(tr):
     if not any(o.status == 'violated' for o in first):
         return first
     second = _rule_wws(tr, tr.r.token_bodies(views=True))
-    if not any(o.status == 'violated' for o in second):
+    from engine import covers
+    if covers(first, second) and not any(o.status == 'violated' for o in second):
         for o in second:
             o.what += ' [read with combinator closures inlined]'
         return second
@@ -432,7 +433,8 @@ def rule_tspan(sm, roles):
     if not any(o.status == 'violated' for o in first):
         return first
     second = _rule_tspan(sm, roles, roles.token_bodies(views='ho'))
-    if not any(o.status == 'violated' for o in second):
+    from engine import covers
+    if covers(first, second) and not any(o.status == 'violated' for o in second):
         for o in second:
             o.what += ' [read with combinator closures inlined]'
         return second
@@ -753,8 +755,28 @@ def rule_wordscan(roles, rm):
     obs = []
     if not deciders or not consumers:
         return [assumed('WORDSCAN', 'WORDSCAN|shape', 'no separate look-ahead / consumer pair for word operators in this shape (%d / %d): nothing to compare' % (len(deciders), len(consumers)))]
-    for d, dp in deciders:
-        for c, cp in consumers:
+    def paired(d, c):
+        # some body calls the look-ahead and, on its true edge, the consumer
+        for x in roles.token_bodies():
+            dcalls = [k for k in x.live_calls if k.ruid == d.id]
+            ccalls = [k for k in x.live_calls if k.ruid == c.id]
+            for dk in dcalls:
+                for sb in sorted(x.live_blocks):
+                    t = x.blocks[sb]['term']
+                    if t['k'] != 'switch':
+                        continue
+                    src = bool_source(x, t['discr'])
+                    if src is None or src[0].bb != dk.bb:
+                        continue
+                    for v, tb in switch_edges(x, sb):
+                        if any(edge_dominates(x, sb, tb, ck.bb) for ck in ccalls):
+                            return True
+        return False
+    pairs = [(d, dp, c, cp) for d, dp in deciders for c, cp in consumers if paired(d, c)]
+    if not pairs:
+        return [assumed('WORDSCAN', 'WORDSCAN|shape', 'no look-ahead whose true edge leads to an operator-token scanner (%d / %d candidates): nothing to compare' % (len(deciders), len(consumers)))]
+    for d, dp, c, cp in pairs:
+        if True:
             key = 'WORDSCAN|%s|%s' % (d.name, c.name)
             cand = set()
             unread = False
@@ -779,3 +801,114 @@ def rule_wordscan(roles, rm):
                 obs.append(bad('WORDSCAN', key, 'the look-ahead that decides "this word is a registered operator" and the scanner that cuts the operator token stop at different characters (%s): the token text is then not the text that was found registered' % ', '.join(repr(chr(x)) for x in diff),
                                d.where(), body=d.name))
     return obs
+
+
+# ----------------------------------------------------------------------------- NUMSTART
+def _dispatch_targets(D, adv, ch):
+    """local bodies whose call is reached first from the dispatching character read when that character is `ch`:
+    concrete walk over the char tests (switch values, range comparisons), all branches where a test is not on the char"""
+    dest = adv.dest['l']
+
+    def val(env, op):
+        if op['k'] in ('copy', 'move') and op['pl']['l'] == dest and op['pl']['p'] and op['pl'].get('ty') == 'char':
+            return ch
+        return _val(env, op)
+    out = set()
+    seen = set()
+    st = [(adv.target, ())]
+    while st:
+        bb, envt = st.pop()
+        if bb is None or (bb, envt) in seen or len(seen) > 4000:
+            continue
+        seen.add((bb, envt))
+        env = dict(envt)
+        blk = D.blocks[bb]
+        for s_ in blk['stmts']:
+            if s_['k'] != 'assign' or s_['pl']['p']:
+                continue
+            rv = s_['rv']
+            l = s_['pl']['l']
+            v = None
+            if rv['k'] == 'use' and rv['op']['k'] in ('copy', 'move'):
+                pl = rv['op']['pl']
+                if pl['l'] == dest and pl['p'] and pl.get('ty') == 'char':
+                    v = ch
+                elif not pl['p']:
+                    v = env.get(pl['l'])
+            elif rv['k'] == 'use' and rv['op']['k'] == 'const':
+                v = rv['op'].get('int')
+            elif rv['k'] == 'discr' and rv['pl']['l'] == dest and not rv['pl']['p']:
+                v = 1
+            elif rv['k'] == 'binop':
+                a, b = val(env, rv['a']), val(env, rv['b'])
+                if a is not None and b is not None:
+                    f = {'Eq': a == b, 'Ne': a != b, 'Lt': a < b, 'Le': a <= b, 'Gt': a > b, 'Ge': a >= b, 'BitOr': a | b, 'BitAnd': a & b}.get(rv['op'])
+                    v = int(f) if f is not None else None
+            elif rv['k'] == 'unop' and rv['op'] == 'Not':
+                a = val(env, rv['a'])
+                v = None if a is None else int(not a)
+            if v is None:
+                env.pop(l, None)
+            else:
+                env[l] = v
+        t = blk['term']
+        e2 = tuple(sorted(env.items()))
+        if t['k'] == 'goto':
+            st.append((t['target'], e2))
+        elif t['k'] == 'switch':
+            d = val(env, t['discr'])
+            if d is None:
+                for sx in D.succ[bb]:
+                    st.append((sx, e2))
+            else:
+                nxt = t['otherwise']
+                for v, tb in t['targets']:
+                    if v == d:
+                        nxt = tb
+                st.append((nxt, e2))
+        elif t['k'] == 'call':
+            c = Call(D, bb, t)
+            prog = getattr(D.facts, '_prog', None)
+            g = prog.by_id.get(c.ruid) if prog is not None and c.ruid else None
+            if g is not None and g.locals[0]['ty'] == D.locals[0]['ty']:
+                out.add(c.ruid)          # a token scanner: the dispatch ends here
+            else:
+                env.pop(t['dest']['l'], None)      # a guard / helper: its outcome is unknown, go on
+                st.append((t.get('target'), tuple(sorted(env.items()))))
+        elif t['k'] in ('drop', 'assert'):
+            st.append((t['target'], e2))
+    return out
+
+
+def rule_numstart(roles, tr):
+    """a Number token starts with a digit: from the dispatching character read, the number scanner is the first
+    engine body reached only when that character is a digit (a sign glued to the digits by the lexer would make
+    `-2++` read as `(-2)++`, and `a -1` as two operands)"""
+    prog = roles.prog
+    if tr.dispatch_adv is None:
+        return [assumed('NUMSTART', 'NUMSTART|shape', 'no dispatching character read found: not decided')]
+    D = tr.dispatch_adv.body
+    scanners = set()
+    for b in roles.token_bodies():
+        if any(rv['k'] == 'agg' and rv.get('adt') == roles.token_adt and rv.get('variant') == 'Number' for bb, i, pl, rv in b.assigns()):
+            scanners.add(b.id)
+            if b.is_closure and b.j.get('parent'):
+                scanners.add(b.j['parent'])
+    if D.id in scanners:
+        return [assumed('NUMSTART', 'NUMSTART|shape', 'the number token is built in the dispatching body itself: not decided')]
+    cand = {0x2B, 0x2D, 0x2E, 0x2F, 0x30, 0x35, 0x39, 0x3A, 0x41, 0x61, 0x65, 0x5F, 0x20, 0x28, 0x22, 0x27, 0xE9, 0x4E2D}
+    for bb in sorted(D.live_blocks):
+        t = D.blocks[bb]['term']
+        if t['k'] == 'switch' and t.get('dty') == 'char':
+            for v, _ in t['targets']:
+                cand |= {v - 1, v, v + 1}
+    cand = {c for c in cand if 0 <= c <= 0x10FFFF and not (0xD800 <= c <= 0xDFFF)}
+    reached_for_digit = any(_dispatch_targets(D, tr.dispatch_adv, c) & scanners for c in (0x30, 0x35, 0x39))
+    if not reached_for_digit:
+        return [assumed('NUMSTART', 'NUMSTART|shape', 'the dispatch to the number scanner cannot be followed from the character read: not decided')]
+    badc = sorted(c for c in cand if not (0x30 <= c <= 0x39) and (_dispatch_targets(D, tr.dispatch_adv, c) & scanners))
+    key = 'NUMSTART|%s' % D.name
+    if badc:
+        return [bad('NUMSTART', key, 'the number scanner is entered for a dispatching character that is not a digit (%s): a sign (or another character) becomes part of a Number token, so prefix / postfix grouping and subtraction change (`-2++`, `a -1`)' % ', '.join(repr(chr(c)) for c in badc[:6]),
+                    tr.dispatch_adv.where(), body=D.name)]
+    return [ok('NUMSTART', key, 'from the dispatching character read the number scanner is reached for digits only (%d characters of the partition tried)' % len(cand), tr.dispatch_adv.where())]
